@@ -491,16 +491,24 @@ theorem reload_old_order_leaves_group_empty :
     [⟨0, fun _ => none, [(3, 0), (4, 1)]⟩, ⟨1, fun _ => none, [(5, 2), (3, 0), (4, 1)]⟩],
     _, rfl, by decide, by decide, by decide, by decide⟩
 
-/-- **Matching is per group.** The (new node, old node) pairs the hand-over restores for a new group `G`
-are taken only from an old group with `G`'s name, and only between members of the same node name: a
-node of new group `G` never inherits from a same-named dialer that lives in another old group. -/
+/-- **Matching is per group, by name, one-to-one.** The (new node, old node) pairs the hand-over restores
+for a new group `G` are taken only from an old group with `G`'s name and only between members of the
+same node name (never a same-named dialer of another group), and no old member is the source of two
+members of `G` (same-named members do not inherit each other's state). -/
 theorem handover_matches_per_group (olds news : List GenGroup) (fb : Nat → Nat → Option Nat) :
-    ∀ R ∈ reloadGroupsOf olds news fb, ∃ G ∈ news, R.g = G.gid ∧ ∀ p ∈ R.pairs,
-      ∃ og ∈ olds, og.gname = G.gname ∧ ∃ nm, (p.1, nm) ∈ G.members ∧ (p.2, nm) ∈ og.members := by
+    ∀ R ∈ reloadGroupsOf olds news fb, ∃ G ∈ news, R.g = G.gid ∧ (R.pairs.map Prod.snd).Nodup ∧ ∀ p ∈ R.pairs,
+      ∃ og ∈ olds, og.gname = G.gname ∧ ∃ nm ∈ G.members, nm.1 = p.1 ∧ ∃ m ∈ og.members, m.1 = p.2 ∧ m.2.1 = nm.2.1 := by
   intro R hR
   simp only [reloadGroupsOf, List.mem_map] at hR
   obtain ⟨G, hG, rfl⟩ := hR
-  exact ⟨G, hG, rfl, fun p hp => matchGroup_sound olds G p hp⟩
+  exact ⟨G, hG, rfl, matchGroup_injective olds G, fun p hp => matchGroup_sound olds G p hp⟩
+
+/-- same-named members are matched by link: old group [HK(link 1) , HK(link 2)], new group [HK(link 2), HK(link 1)]
+(order swapped by map iteration) -> each new node inherits from the old node with ITS link; a third HK with an
+unknown link inherits nothing; a name that is unique in the old group still matches although the link changed -/
+example :
+    matchGroup [⟨0, 1, [(0, 7, 1), (1, 7, 2)]⟩] ⟨9, 1, [(5, 7, 2), (6, 7, 1), (8, 7, 3)]⟩ = [(5, 1), (6, 0)] ∧
+    matchGroup [⟨0, 1, [(0, 7, 1), (1, 8, 2)]⟩] ⟨9, 1, [(5, 7, 9)]⟩ = [(5, 0)] := by decide
 
 /-- A node of the new generation that is matched in no group (its name is absent from every namesake
 old group) comes out of the restore pass exactly as it went in, and the whole hand-over never declares
@@ -516,9 +524,9 @@ theorem handover_unmatched_node_untouched (w : World) (gs : List ReloadGroup) (o
 /-- old group 1 has a dead node named 7 (object 0); old group 2 has no node of that name.  New group 2
 gets a fresh node (object 5) named 7: it is matched with nothing, although the name exists elsewhere. -/
 example :
-    matchGroup [⟨0, 1, [(0, 7)]⟩, ⟨0, 2, [(1, 8)]⟩] ⟨9, 2, [(5, 7), (6, 8)]⟩ = [(6, 1)] ∧
-    matchGroup [⟨0, 1, [(0, 7)]⟩, ⟨0, 2, [(1, 8)]⟩] ⟨9, 1, [(5, 7)]⟩ = [(5, 0)] ∧
-    matchGroup [⟨0, 1, [(0, 7)]⟩] ⟨9, 3, [(5, 7)]⟩ = [] := by decide
+    matchGroup [⟨0, 1, [(0, 7, 0)]⟩, ⟨0, 2, [(1, 8, 1)]⟩] ⟨9, 2, [(5, 7, 5), (6, 8, 1)]⟩ = [(6, 1)] ∧
+    matchGroup [⟨0, 1, [(0, 7, 0)]⟩, ⟨0, 2, [(1, 8, 1)]⟩] ⟨9, 1, [(5, 7, 0)]⟩ = [(5, 0)] ∧
+    matchGroup [⟨0, 1, [(0, 7, 0)]⟩] ⟨9, 3, [(5, 7, 0)]⟩ = [] := by decide
 
 /-- a new generation inherits an all-dead TCP4 state; the floor revives the first member -/
 example :
